@@ -31,6 +31,7 @@ from liquid.token import TOKEN_TRUE
 from liquid.token import TOKEN_WORD
 
 from .path import Path
+from .path import quote_string
 
 if TYPE_CHECKING:
     from liquid import Environment
@@ -69,8 +70,8 @@ class Empty(Expression):
             return True
         return isinstance(other, (list, dict, str)) and not other
 
-    def __str__(self) -> str:  # pragma: no cover
-        return ""
+    def __str__(self) -> str:
+        return "empty"
 
     def evaluate(self, _: RenderContext) -> Empty:
         return self
@@ -89,8 +90,8 @@ class Blank(Expression):
             return True
         return isinstance(other, Blank)
 
-    def __str__(self) -> str:  # pragma: no cover
-        return ""
+    def __str__(self) -> str:
+        return "blank"
 
     def evaluate(self, _: RenderContext) -> Blank:
         return self
@@ -175,6 +176,9 @@ class StringLiteral(Literal[str]):
 
     def __init__(self, token: Token, value: str):
         super().__init__(token, value)
+
+    def __str__(self) -> str:
+        return quote_string(self.value)
 
     def __eq__(self, other: object) -> bool:
         return isinstance(other, StringLiteral) and self.value == other.value
